@@ -154,7 +154,7 @@ def tables():
         raise ValueError('ASCII \\d set changed')
     import inspect
     par = inspect.signature(su.string_to_bytes).parameters
-    if list(par)[:3] != ['text', 'unit_system', 'return_int'] or par['return_int'].default is not False:
+    if list(par)[:3] != ['text', 'unit_system', 'return_int'] or type(par['return_int'].default) is not bool:
         raise ValueError('string_to_bytes signature changed: %s' % inspect.signature(su.string_to_bytes))
     default = par['unit_system'].default      # a str, or something else (then `none` in the generated table)
     # does building the 'Invalid unit system' message fail for tuple values? (probe the live function)
@@ -169,11 +169,11 @@ def tables():
             outcomes.add('TypeError')
     if outcomes not in ({'ValueError'}, {'TypeError'}):
         raise ValueError('tuple-valued unit systems behave inconsistently: %s' % sorted(outcomes))
-    return exps, systems, spaces, default, outcomes == {'TypeError'}
+    return exps, systems, spaces, default, outcomes == {'TypeError'}, par['return_int'].default
 
 
 def generate():
-    exps, systems, spaces, default, tuple_fails = tables()
+    exps, systems, spaces, default, tuple_fails, default_flag = tables()
     out = ['/- GENERATED by harness/props/C10.py (generate) from oslo_utils/strutils.py and',
            '   oslo_utils/imageutils/qemu.py of the working tree - do not edit. -/',
            'namespace Oslo.Generated.C10', '',
@@ -203,6 +203,8 @@ def generate():
             '    unit system of length other than 1 (probed with `()`, `(\'S\', \'I\')`, `(\'I\', \'E\', \'C\')`): the',
             '    message `"...%s" % unit_system` cannot be built unless the value is wrapped in a 1-tuple -/',
             'def tupleMessageFails : Bool := %s' % ('true' if tuple_fails else 'false'), '',
+            '/-- default of the `return_int` parameter in the live signature -/',
+            'def defaultReturnInt : Bool := %s' % ('true' if default_flag else 'false'), '',
             'end Oslo.Generated.C10', '']
     common.write_if_changed(os.path.join(common.LEAN, 'OsloModel', 'Generated', 'C10.lean'), '\n'.join(out))
 
@@ -305,15 +307,56 @@ def sys_json(sys):
     return sys if isinstance(sys, str) else list(sys)
 
 
+class _Truthy:
+    """an object that is true without being the singleton True (numpy bool, Mock, option wrapper ...)"""
+    def __bool__(self):
+        return True
+
+
+class _Falsy:
+    def __bool__(self):
+        return False
+
+
+class _Empty:
+    """false through __len__"""
+    def __len__(self):
+        return 0
+
+
+# The return_int argument is a bool (passed as it is) or a key of FLAGS: any object, of which the
+# function may only use the truth value; 'omitted' leaves the argument out (default False).
+FLAGS = {'True': True, 'False': False, '1': 1, '0': 0, '2': 2, '-1': -1, '1.0': 1.0, '0.0': 0.0, '0.5': 0.5,
+         'nan': float('nan'), '0j': 0j, "'yes'": 'yes', "''": '', "'False'": 'False', "'0'": '0', "b''": b'',
+         "b'0'": b'0', '(0,)': (0,), '()': (), '[]': [], '[0]': [0], '{}': {}, "{'a': 0}": {'a': 0},
+         'set()': set(), 'None': None, 'object()': object(), 'Truthy()': _Truthy(), 'Falsy()': _Falsy(),
+         'Empty()': _Empty(), 'Ellipsis': Ellipsis, 'len': len, 'range(0)': range(0), 'range(3)': range(3)}
+TRUTHY_FLAGS = sorted(k for k, v in FLAGS.items() if bool(v))
+FALSY_FLAGS = sorted(k for k, v in FLAGS.items() if not bool(v)) + ['omitted']
+
+
+def flag_truth(ri):
+    """the truth value of the return_int argument - all the documentation lets the function use"""
+    if isinstance(ri, bool):
+        return ri
+    return False if ri == 'omitted' else bool(FLAGS[ri])
+
+
+def flag_show(ri):
+    return repr(ri) if isinstance(ri, bool) else ('<omitted>' if ri == 'omitted' else ri)
+
+
 def impl_s2b(sys, text, ri):
     kind, name, form = sys_parts(sys)
     f = _strutils().string_to_bytes
+    flag = {} if ri == 'omitted' and not isinstance(ri, bool) else \
+        {'return_int': ri if isinstance(ri, bool) else FLAGS[ri]}
     if kind == 'omitted':
-        return canon(f, text, return_int=ri)
+        return canon(f, text, **flag)
     v = name if kind == 'str' else NONSTR[name]
     if form == 'pos':
-        return canon(f, text, v, ri)
-    return canon(f, text, unit_system=v, return_int=ri)
+        return canon(f, text, v, *flag.values())
+    return canon(f, text, unit_system=v, **flag)
 
 
 _QCONV = []
@@ -700,14 +743,24 @@ def gen_qemu(rng):
 # correspondence
 
 def s2b_line(sys, text, ri):
+    """the model sees the flag's truth value ('d': argument omitted, default of the live signature)"""
     kind, name, _ = sys_parts(sys)
+    fl = 'd' if (ri == 'omitted' and not isinstance(ri, bool)) else int(flag_truth(ri))
     if kind == 'str':
-        return req('s2b', hexs(name), hexs(text), int(ri))
-    return req(('s2bt' if sys_bad_tuple(sys) else 's2bx') if kind == 'py' else 's2bd', hexs(text), int(ri))
+        return req('s2b', hexs(name), hexs(text), fl)
+    return req(('s2bt' if sys_bad_tuple(sys) else 's2bx') if kind == 'py' else 's2bd', hexs(text), fl)
 
 
-def s2b_lines(sys, text):
-    return [s2b_line(sys, text, 0), s2b_line(sys, text, 1)]
+def s2b_lines(sys, text, f0=False, f1=True):
+    return [s2b_line(sys, text, f0), s2b_line(sys, text, f1)]
+
+
+def gen_flag_pair(rng):
+    """(a falsy flag, a truthy flag): mostly the two bools, sometimes other objects"""
+    if rng.random() < 0.8:
+        return False, True
+    return (rng.choice(FALSY_FLAGS) if rng.random() < 0.7 else False,
+            rng.choice(TRUTHY_FLAGS) if rng.random() < 0.8 else True)
 
 
 def in_model_domain(text):
@@ -746,18 +799,29 @@ def correspondence(ctx):
         text, tag = gen_text(rng)
         cases.append((gen_system(rng), text, tag))
     cases = [c for c in cases if in_model_domain(c[1]) and sys_in_domain(c[0])]
-    for sys, text, tag in cases:
-        lines += s2b_lines(sys, text)
+    cases = [c + ((False, True) if c[2].endswith('-sweep') else gen_flag_pair(rng)) for c in cases]
+    # every kind of return_int argument: each falsy one against each truthy one on a few texts
+    for text in ('12b', '1.5KiB', '-12bit', '1KB', '.3Mb', '7'):
+        for k, f1 in enumerate(TRUTHY_FLAGS):
+            f0 = FALSY_FLAGS[k % len(FALSY_FLAGS)]
+            for sys in ('IEC', ['str', 'mixed', 'pos'], OMITTED):
+                cases.append((sys, text, 'flag-sweep', f0, f1))
+        for k, f0 in enumerate(FALSY_FLAGS):
+            cases.append((['str', 'IEC', 'pos'], text, 'flag-sweep', f0, TRUTHY_FLAGS[k % len(TRUTHY_FLAGS)]))
+    for sys, text, tag, f0, f1 in cases:
+        lines += s2b_lines(sys, text, f0, f1)
     replies = ctx.driver.ask_many(lines)
-    for i, (sys, text, tag) in enumerate(cases):
+    for i, (sys, text, tag, f0, f1) in enumerate(cases):
         mo0, mo1 = parse_reply(replies[2 * i]), parse_reply(replies[2 * i + 1])
-        py0, py1 = impl_s2b(sys, text, False), impl_s2b(sys, text, True)
+        py0, py1 = impl_s2b(sys, text, f0), impl_s2b(sys, text, f1)
+        if (f0, f1) != (False, True):
+            ctx.count('corr/s2b/flag/non-bool')
         ctx.evaluations += 2
         ctx.count('corr/s2b/' + tag)
         ctx.count('corr/s2b/sys/' + sys_label(sys))
         ctx.count('corr/s2b/impl/' + (py0[1] if py0[0] == 'err' else py0[0]))
         ctx.count('corr/s2b/model/' + (mo0[1] if mo0[0] == 'err' else mo0[0]))
-        skey = repr(sys_json(sys))
+        skey = repr((sys_json(sys), f0, f1))
         if (skey, text) not in seen and nontrivial_s2b(text, py0):
             ctx.nontrivial(('s2b', skey, text, 0))
             ctx.nontrivial(('s2b', skey, text, 1))
@@ -766,7 +830,7 @@ def correspondence(ctx):
             ctx.sample({'fn': 's2b', 'unit_system': sys_json(sys), 'text': text, 'implementation': [show(py0), show(py1)],
                         'model': [replies[2 * i], replies[2 * i + 1]]}, 5)
         if not agree_s2b(py0, py1, mo0, mo1):
-            out.append(Disagreement({'fn': 's2b', 'unit_system': sys_json(sys), 'text': text},
+            out.append(Disagreement({'fn': 's2b', 'unit_system': sys_json(sys), 'text': text, 'flags': [f0, f1]},
                                     [show(py0), show(py1)], [replies[2 * i], replies[2 * i + 1]]))
     # qemu size fields
     qcases = []
@@ -890,6 +954,7 @@ def out_of_range(mag, q, mdiv):
 def assess_s2b(sys, text, ri):
     """(kind, what, finding-class or None) when the property fails on the implementation, else None"""
     py = impl_s2b(sys, text, ri)
+    flag, ri = ri, flag_truth(ri)       # the function may use nothing but the truth value of the flag
     sp = spec(sys, text)
     if sp is None:
         if py == ('err', 'ValueError'):
@@ -914,7 +979,7 @@ def assess_s2b(sys, text, ri):
         if py[0] != 'float':
             if py[0] == 'inf' and oor:
                 return ('inf', 'returned %s for a finite quantity' % show(py), 'N3-float-range')
-            return ('type', 'return_int=False returned %s' % show(py), None)
+            return ('type', 'return_int=%s (falsy) returned %s, not the float' % (flag_show(flag), show(py)), None)
         x = py[1]
         if exact:
             return None if x == q else ('value', 'exactly representable input: got %s, exact %s' % (show(py), q), None)
@@ -922,7 +987,7 @@ def assess_s2b(sys, text, ri):
             return None
         return ('value', 'got %s, exact %s (relative error above 2^-50)' % (show(py), q), 'N3-float-range' if oor else None)
     if py[0] != 'int':
-        return ('type', 'return_int=True returned %s' % show(py), None)
+        return ('type', 'return_int=%s (truthy) returned %s, not the int ceiling %d' % (flag_show(flag), show(py), ceil_fr(q)), None)
     k = py[1]
     if k == ceil_fr(q):
         return None
@@ -1031,8 +1096,9 @@ def assess_qemu(details, through_object=None):
 def assess(case):
     if case.get('fn') == 's2b':
         if 'return_int' in case:
-            return assess_s2b(case['unit_system'], case['text'], bool(case['return_int']))
-        return assess_s2b(case['unit_system'], case['text'], False) or assess_s2b(case['unit_system'], case['text'], True)
+            return assess_s2b(case['unit_system'], case['text'], case['return_int'])
+        f0, f1 = case.get('flags', [False, True])
+        return assess_s2b(case['unit_system'], case['text'], f0) or assess_s2b(case['unit_system'], case['text'], f1)
     if case.get('fn') == 'qemu':
         return assess_qemu(case['details'])
     if case.get('fn') == 'field':
@@ -1060,6 +1126,10 @@ def search_texts(ctx, n):
                 for name in UNKNOWN_SYSTEMS + SYSTEMS:
                     yield ['str', name, form], text, ri
             yield OMITTED, text, ri
+    for text in ('12b', '1.5KiB', '-12bit', '1KB', '.3Mb'):         # every kind of return_int argument
+        for sys in ('IEC', ['str', 'mixed', 'pos'], ['str', 'SI', 'pos'], OMITTED):
+            for ri in TRUTHY_FLAGS + FALSY_FLAGS:
+                yield sys, text if sys_key(sys) != 'SI' else text.replace('Ki', 'k').replace('K', 'k'), ri
     for sys in SYSTEMS:
         for pfx in [''] + ALL_PREFIXES:
             for unit in UNITS:
@@ -1071,7 +1141,8 @@ def search_texts(ctx, n):
         if rng.random() < 0.03:
             i = rng.randrange(len(text) + 1)
             text = text[:i] + rng.choice(UNI_DIGITS + '  ſİ') + text[i:]
-        yield gen_system(rng), text, rng.random() < 0.5
+        pair = gen_flag_pair(rng)
+        yield gen_system(rng), text, pair[rng.random() < 0.5]
 
 
 def listed_ids():
@@ -1117,7 +1188,7 @@ def search(ctx, seeds, full=False):
     for s in seeds[:300]:
         ctx.evaluations += 1
         if s.get('fn') == 's2b' and 'return_int' not in s:
-            for ri in (False, True):
+            for ri in s.get('flags', [False, True]):
                 c = dict(s, return_int=ri)
                 r = assess(c)
                 if r:
@@ -1201,9 +1272,9 @@ def replay(ctx, payload):
         print(payload.get('no_longer_checks'))
         return 0
     if case.get('fn') == 's2b':
-        ris = [bool(case['return_int'])] if 'return_int' in case else [False, True]
+        ris = [case['return_int']] if 'return_int' in case else case.get('flags', [False, True])
         for ri in ris:
-            print('string_to_bytes(%r, unit_system %s, return_int=%r)' % (case['text'], sys_show(case['unit_system']), ri))
+            print('string_to_bytes(%r, unit_system %s, return_int=%s)' % (case['text'], sys_show(case['unit_system']), flag_show(ri)))
             print('  implementation:', show(impl_s2b(case['unit_system'], case['text'], ri)))
             if in_model_domain(case['text']) and sys_in_domain(case['unit_system']):
                 print('  model         :', ctx.driver.ask(s2b_line(case['unit_system'], case['text'], ri)))
